@@ -1,7 +1,9 @@
 (** C19 -- I/O failures are reported as failures, never as success.
     This file holds only the pinned statements; proofs live in Proofs/C19. *)
-From RS Require Import Base.Bytes Base.Outcome Pkt.Pcap Lex.Tokens Interp.Io
-  Proofs.C19.Loops Proofs.C19.Writer Proofs.C19.Session Proofs.C19.ReportPoint Proofs.C19.Report.
+From RS Require Import Base.Bytes Base.Outcome Pkt.Pcap Lex.Tokens Interp.Run Interp.Io Interp.IoRun
+  Proofs.C19.Loops Proofs.C19.Writer Proofs.C19.Session Proofs.C19.ReportPoint Proofs.C19.Report
+  Proofs.C19.Pipeline Proofs.C19.PipelineSession Proofs.C19.TraceRun Proofs.C19.Top.
+Open Scope list_scope.
 Open Scope N_scope.
 
 (** (a) fail-safe: when the file cannot take the complete output (limit L below 24 + total record
@@ -106,6 +108,70 @@ Theorem C19_old_protocol_panics :
   exists recs L, panics (session_old false (Some L) true recs) = true.
 Proof. exact old_protocol_panics. Qed.
 
+(** *** the whole pipeline: source bytes, data files, creation result, failure point -> report
+
+    [compile_with_faults] threads BufWriter<File> through the interpreter as the code does.
+    [trace_file] is the same interpreter text run with a writer that never fails and records
+    (location, record) pairs. *)
+
+(** determinism up to the failing write: the report under any fault is the fault-free trace
+    replayed through the BufWriter *)
+Theorem C19_pipeline_is_replay : forall keep limit create_ok files input,
+  compile_with_faults keep limit create_ok files input = compile_via_trace keep limit create_ok files input.
+Proof. exact compile_is_replay. Qed.
+
+(** ... i.e. the writer session over the trace's records: status from the session's outcome, the
+    diagnostic's line:col is the location current when the failing record was written (none for the
+    header write and the final flush), the file is the session's file *)
+Theorem C19_pipeline_is_session : forall keep limit create_ok files input evs te,
+  trace_file files input = Some (evs, te) ->
+  compile_with_faults keep limit create_ok files input =
+  report_of_verdict keep
+    (verdict_of_session evs te (session_io CAP limit create_ok (map snd evs) (ending_of te))).
+Proof. exact compile_is_session. Qed.
+
+(** "ok" only if the program ends without error, the file could be created, and the file is complete *)
+Theorem C19_pipeline_ok_complete : forall keep limit create_ok files input,
+  says_ok (fst (compile_with_faults keep limit create_ok files input)) = true ->
+  exists evs, trace_file files input = Some (evs, TeOk)
+    /\ create_ok = true
+    /\ rp_file (fst (compile_with_faults keep limit create_ok files input)) = Some (pcap_ghdr ++ concat (map snd evs))
+    /\ rp_exit (fst (compile_with_faults keep limit create_ok files input)) = 0.
+Proof. exact pipeline_ok_complete. Qed.
+
+(** a limit below the complete fault-free output is never reported "ok" ... *)
+Theorem C19_pipeline_fail_safe : forall keep L create_ok files input evs te,
+  trace_file files input = Some (evs, te) ->
+  L < len (pcap_ghdr ++ concat (map snd evs)) ->
+  says_ok (fst (compile_with_faults keep (Some L) create_ok files input)) = false.
+Proof. exact pipeline_fail_safe. Qed.
+
+(** ... and no fault turns into a panic: the model panics only where the fault-free run does *)
+Theorem C19_pipeline_panics_only_without_fault : forall keep limit create_ok files input,
+  panics (fst (compile_with_faults keep limit create_ok files input)) = true ->
+  exists evs s, trace_file files input = Some (evs, TePanic s).
+Proof. exact pipeline_panics_only_without_fault. Qed.
+
+(** an input that cannot be opened or read is reported as failed *)
+Theorem C19_pipeline_unreadable_input : forall keep limit create_ok files,
+  says_ok (fst (compile_with_faults keep limit create_ok files InNoOpen)) = false
+  /\ says_ok (fst (compile_with_faults keep limit create_ok files InUnreadable)) = false
+  /\ rp_exit (fst (compile_with_faults keep limit create_ok files InNoOpen)) = 1
+  /\ rp_exit (fst (compile_with_faults keep limit create_ok files InUnreadable)) = 1.
+Proof. exact pipeline_unreadable_input. Qed.
+
+(** the trace is the fault-free pipeline of Interp/Cli.v ([run_src]): same outcome, and the records
+    are exactly its pcap *)
+Theorem C19_trace_is_run_src : forall files src,
+  exists evs te, trace_file files (InSrc src) = Some (evs, te) /\
+  match run_src files src, te with
+  | RunOk pcap _ _, TeOk => pcap = pcap_ghdr ++ concat (map snd evs)
+  | RunErr e l pcap, TeErr e' l' => e = e' /\ l = l' /\ pcap = pcap_ghdr ++ concat (map snd evs)
+  | RunPanic s, TePanic s' => s = s'
+  | _, _ => False
+  end.
+Proof. exact trace_is_run_src. Qed.
+
 (** non-vacuity: three records (one larger than the buffer); fault-free sizes after each operation;
     a fault at byte 5000 is reported by the second record's write, one at 20000 by the third's, one
     at 20300 only by the final flush; without a fault the file is complete *)
@@ -119,4 +185,35 @@ Example C19_nonvacuous :
   /\ rp_file (session false (Some 5000) true recs) = None
   /\ says_ok (session false (Some 20424) true recs) = true
   /\ rp_file (session false None true recs) = Some (pcap_ghdr ++ concat recs).
-Proof. repeat split; vm_compute; reflexivity. Qed.
+Proof.
+  cbv zeta. split; [vm_compute; reflexivity|]. split; [vm_compute; reflexivity|]. split; [vm_compute; reflexivity|].
+  split; [vm_compute; reflexivity|]. split; [vm_compute; reflexivity|]. split; [vm_compute; reflexivity|].
+  split; [vm_compute; reflexivity|]. vm_compute; reflexivity.
+Qed.
+
+(** ... and through the whole pipeline: a three-packet program whose second record (9058 bytes,
+    payload from a data file) is larger than the buffer.  A fault at byte 5000 is reported at the
+    second packet's statement (line 3) and the output is removed; a fault at byte 9200 (inside the
+    last, buffered record) only by the final flush, without a location, and -k keeps exactly 9200
+    bytes; no effective fault: ok, 9205 bytes; a creation failure: reported, with the "delete:"
+    diagnostic; a missing data file: reported at the statement that reads it *)
+Example C19_nonvacuous_pipeline :
+  let nl := String (Ascii.ascii_of_N 10) EmptyString in
+  let src := bytes_of_string ("import ipv4; import io;" ++ nl
+                              ++ "ipv4::udp::unicast(1.2.3.4:1, 5.6.7.8:2, ""hi"");" ++ nl
+                              ++ "ipv4::udp::unicast(1.2.3.4:1, 5.6.7.8:2, io::file(""/d""));" ++ nl
+                              ++ "ipv4::udp::unicast(1.2.3.4:1, 5.6.7.8:2, ""there"");" ++ nl)%string in
+  let files := [(bytes_of_string "/d", repeat 97 (N.to_nat 9000))] in
+  let view r := (rp_status (fst r), rp_exit (fst r), option_map len (rp_file (fst r)), rp_delete_diag (fst r), snd r) in
+  option_map (fun t => (map fst (fst t), map (fun e => len (snd e)) (fst t), snd t)) (trace_file files (InSrc src))
+    = Some ([(2, 46); (3, 55); (4, 49)], [60; 9058; 63], TeOk)
+  /\ view (compile_with_faults false (Some 5000) true files (InSrc src)) = (StErr (3, 55) EIo, 1, None, false, true)
+  /\ view (compile_with_faults true (Some 9200) true files (InSrc src)) = (StErr (0, 0) EIo, 1, Some 9200, false, true)
+  /\ view (compile_with_faults false (Some 9205) true files (InSrc src)) = (StOk, 0, Some 9205, false, false)
+  /\ view (compile_with_faults false None false files (InSrc src)) = (StErr (0, 0) EIo, 1, None, true, false)
+  /\ view (compile_with_faults true None true [] (InSrc src)) = (StErr (3, 55) EIo, 1, Some 84, false, false).
+Proof.
+  cbv zeta. split; [vm_compute; reflexivity|]. split; [vm_compute; reflexivity|].
+  split; [vm_compute; reflexivity|]. split; [vm_compute; reflexivity|]. split; [vm_compute; reflexivity|].
+  vm_compute; reflexivity.
+Qed.
